@@ -52,6 +52,16 @@ public:
         return items_map_.size();
     }
 
+#ifdef DSPLIB_VERIF
+    //verification hook: cached keys, most recently used first
+    template<typename Out>
+    void keys(Out& out) const {
+        for (const auto& kv : items_list_) {
+            out.push_back(kv.first);
+        }
+    }
+#endif
+
 private:
     std::list<KeyValue_t> items_list_;
     std::unordered_map<Key, ListIterator_t> items_map_;
